@@ -16,7 +16,8 @@
                                           but from any state and with failing schedulers)
     * ties in a sort key                  `sort_perm_of_distinct_keys`
     * sessions / events in any order      `popCurrent_perm`, `plugins_commute`, `unplugs_commute`,
-                                          `eventsStage_perm`, `run_perm_sessions_partial`
+                                          `eventsStage_perm`, `run_perm_sessions` (the WHOLE simulator),
+                                          `run_perm_sessions_core`, `run_perm_sessions_partial` (event core)
     * time shift by `k` periods           `updateSchedules_shift`, `run_shift` (the WHOLE simulator, `max_recompute`
                                           = None), `run_shift_anchored` (any `max_recompute`, an event in period 0),
                                           `run_shift_from` (from any related states, errors included);
@@ -28,6 +29,7 @@ import AcnProofs.Lemmas.EquivPilots
 import AcnProofs.Lemmas.EquivShift
 import AcnProofs.Lemmas.EquivSimRun
 import AcnProofs.Lemmas.EquivSimShiftCap
+import AcnProofs.Lemmas.EquivSimSessionsRun
 import AcnProofs.C08
 
 set_option linter.unusedSectionVars false
@@ -555,16 +557,8 @@ variable {K : Type} [Field K] [LinearOrder K] [IsStrictOrderedRing K] [HasExp K]
     not even the same one), their cores are `CoreEquiv`: same iteration, occupancy keyed by station,
     `_resolve`, `_last_schedule_update`, invocation periods; queue, event history and `ev_history`
     equal as multisets.
-    WHAT REMAINS for the full `run_perm_sessions` (not proved): that pilots, rates, peak and the EV
-    records (up to the EV-list permutation) are equal too, for a scheduler that answers views equal
-    up to the order of … with the same schedule.  The missing step is `EVSE.current_pilot` across a
-    period's events: `Sim.stepEv` zeroes it at the station of every hitting unplug, in heap order, so
-    one needs either the commutation of `stepEv` over two key-sorted permutations of the period's
-    events (`plugins_commute` / `unplugs_commute` lifted to `Sim.stepEv`, plus "sorted permutations
-    differ by swaps inside ties") or a closed form of `evsePilot` after `Sim.eventsStage` under
-    C01's `Inv`; `update_pilots`, `storeRates` and the scheduling stage then go through exactly as
-    in `run_equivariant_stations` with `σ = id` and `evOf` invariant under a permutation of an EV
-    list with distinct ids. -/
+    (For a single scheduler that does not read `EVSE.current_pilot` the full statement —
+    matrices, peak, EV records — is `run_perm_sessions` below.) -/
 theorem run_perm_sessions_core {cfg cfg' : Cfg K} (hv : Valid cfg.core) (hp : CfgPerm cfg.core cfg'.core)
     (sched sched' : View K → Except EventCore.Err (Schedule K)) (n : Nat)
     (h : (Sim.run cfg sched n (Sim.init cfg)).2 = none)
@@ -583,6 +577,107 @@ theorem run_perm_sessions_core {cfg cfg' : Cfg K} (hv : Valid cfg.core) (hp : Cf
   exact he
 
 end sessions_sim
+
+section sessions_full
+open Acn.Sim Acn.SimPerm
+variable {K : Type} [Field K] [LinearOrder K] [IsStrictOrderedRing K] [HasExp K]
+
+/-- the static tables enter the simulator only through membership: with the EV list / recompute list
+    permuted, `Sim.run` is literally the same function of the state -/
+theorem run_cfg_perm_sim (cfg : Cfg K) (evs' : List (Evse.Ev K)) (recs' : List (Int × String))
+    (hv : Valid cfg.core) (hp : CfgPerm cfg.core ({ cfg with evs := evs', recomputes := recs' } : Cfg K).core)
+    (sched : View K → Except EventCore.Err (Schedule K)) (n : Nat) (s : State K) :
+    Sim.run { cfg with evs := evs', recomputes := recs' } sched n s = Sim.run cfg sched n s := by
+  have hstep : ∀ e s, stepEv ({ cfg with evs := evs', recomputes := recs' } : Cfg K) e s = stepEv cfg e s := by
+    intro e s
+    unfold stepEv
+    have h1 : EventCore.step ({ cfg with evs := evs', recomputes := recs' } : Cfg K).core e s.core =
+        EventCore.step cfg.core e s.core := by
+      simp only [EventCore.step, process_perm hv hp]
+    rw [h1, findSession_perm hv hp]
+    rfl
+  have hpa : ∀ es s, Sim.processAll ({ cfg with evs := evs', recomputes := recs' } : Cfg K) es s = Sim.processAll cfg es s := by
+    intro es
+    induction es with
+    | nil => intro s; rfl
+    | cons e es ih => intro s; simp only [Sim.processAll, hstep, ih]
+  have hb : ∀ s, Sim.body ({ cfg with evs := evs', recomputes := recs' } : Cfg K) sched s = Sim.body cfg sched s := by
+    intro s
+    have hev : Sim.eventsStage ({ cfg with evs := evs', recomputes := recs' } : Cfg K) s = Sim.eventsStage cfg s := by
+      simp only [Sim.eventsStage, hpa]
+    have hss : ∀ x, schedStage ({ cfg with evs := evs', recomputes := recs' } : Cfg K) sched x = schedStage cfg sched x :=
+      fun _ => rfl
+    have hsp : ∀ x i st, setPilotAt ({ cfg with evs := evs', recomputes := recs' } : Cfg K) x i st = setPilotAt cfg x i st :=
+      fun _ _ _ => rfl
+    have hup : ∀ sts i x, updatePilotsFrom ({ cfg with evs := evs', recomputes := recs' } : Cfg K) i sts x =
+        updatePilotsFrom cfg i sts x := by
+      intro sts
+      induction sts with
+      | nil => intro i x; rfl
+      | cons st rest ih => intro i x; simp only [updatePilotsFrom, hsp, ih]
+    have hsr : ∀ w x, storeRates ({ cfg with evs := evs', recomputes := recs' } : Cfg K) w x = storeRates cfg w x :=
+      fun _ _ => rfl
+    have has : ∀ x, applyStage ({ cfg with evs := evs', recomputes := recs' } : Cfg K) x = applyStage cfg x := by
+      intro x
+      have hst : ({ cfg with evs := evs', recomputes := recs' } : Cfg K).stations = cfg.stations := rfl
+      simp only [applyStage, updatePilots, hup, hsr, hst]
+    unfold Sim.body
+    rw [hev]
+    simp only [hss, has]
+  induction n generalizing s with
+  | zero => rfl
+  | succ n ih => simp only [Sim.run, hb, ih]
+
+/-- CAPSTONE (sessions).  List the sessions (the EVs of the plug-in events) and the recompute events
+    in ANY other order.  For every Valid scenario, every fuel and every scheduler that does not read
+    `EVSE.current_pilot` through its view (`SchedIgnoresEvsePilot`: scripted, empty, uncontrolled,
+    the sorted algorithms), every run of the FULL simulator that completes on the original listing
+    completes on the permuted one, and the final states agree: pilot matrix, rate matrix, peak,
+    `EVSE.current_pilot`, number of random draws, occupancy log EQUAL; the EV records equal up to the
+    listing permutation (`EvsPerm`: energies, rates, batteries per session id); the cores `CoreEquiv`
+    (iteration, occupancy, flags, invocation periods equal; queue and histories equal as multisets).
+    How `EVSE.current_pilot` is handled: mid-period it may differ between the two runs only in the
+    order in which unplugs zero it (same set of stations — but that is not needed), it is visible to a
+    scheduler only through `View.evsePilot`, and `update_pilots` overwrites every entry with the
+    pilot column (`updatePilots_evse`), so it is equal again at every loop head. -/
+theorem run_perm_sessions (cfg : Cfg K) (evs' : List (Evse.Ev K)) (recs' : List (Int × String))
+    (hv : Valid cfg.core) (he : evs'.Perm cfg.evs) (hrc : recs'.Perm cfg.recomputes)
+    {sched : View K → Except EventCore.Err (Schedule K)} (hsch : SchedIgnoresEvsePilot sched)
+    (n : Nat) (r : State K) (hrun : Sim.run cfg sched n (Sim.init cfg) = (r, none)) :
+    ∃ r', Sim.run { cfg with evs := evs', recomputes := recs' } sched n
+        (Sim.init { cfg with evs := evs', recomputes := recs' }) = (r', none) ∧
+      CoreEquiv r.core r'.core ∧ NC r r' := by
+  have hp : CfgPerm cfg.core ({ cfg with evs := evs', recomputes := recs' } : Cfg K).core :=
+    ⟨he.map _, hrc, fun _ => Iff.rfl, rfl⟩
+  have hrel : Rel cfg.core 0 (Sim.init cfg).core (Sim.init ({ cfg with evs := evs', recomputes := recs' } : Cfg K)).core :=
+    ⟨init_inv hv, (init_inv (hv.of_perm hp)).of_perm hp, rfl, rfl⟩
+  have hpend := hrel.equiv.pending
+  have hlt : lastTs (Sim.init ({ cfg with evs := evs', recomputes := recs' } : Cfg K)).core.pending =
+      lastTs (Sim.init cfg).core.pending := lastTs_perm hpend.symm
+  have hlt' : lastTs (EventCore.init ({ cfg with evs := evs', recomputes := recs' } : Cfg K).core).pending =
+      lastTs (EventCore.init cfg.core).pending := hlt
+  have hnc : NC (Sim.init cfg) (Sim.init ({ cfg with evs := evs', recomputes := recs' } : Cfg K)) := by
+    refine ⟨?_, ?_, rfl, ⟨he, ?_⟩, rfl, rfl, rfl⟩
+    · simp only [Sim.init, hlt']
+    · simp only [Sim.init, hlt']
+    · have h1 : (cfg.evs.map (·.session)) = cfg.core.sessions.map (·.id) := by
+        simp only [Cfg.core, List.map_map]
+        rfl
+      show (cfg.evs.map (·.session)).Nodup
+      rw [h1]
+      exact hv.ids_nodup
+  obtain ⟨r', hr', hce, hncr⟩ := run_perm_sim hv hsch n 0 hrel hnc (by simp [Sim.init]) hrun
+  exact ⟨r', by rw [run_cfg_perm_sim cfg evs' recs' hv hp]; exact hr', hce, hncr⟩
+
+/-- the scripted and the empty scheduler do not read `EVSE.current_pilot` -/
+theorem scripted_ignoresEvsePilot (script : List (Nat × Option (Schedule K))) (dflt : Schedule K) :
+    SchedIgnoresEvsePilot (scripted script dflt) ∧ SchedIgnoresEvsePilot (emptySched (K := K)) :=
+  ⟨fun _ _ => rfl, fun _ _ => rfl⟩
+
+example : Valid exCfg ∧ ([⟨"z", "A", 2, 3⟩, ⟨"y", "B", 0, 2⟩, ⟨"x", "A", 0, 2⟩] : List Session).Perm exCfg.sessions :=
+  ⟨exCfg_valid, by decide⟩
+
+end sessions_full
 
 section ties
 open Acn.Sorted
